@@ -6,12 +6,14 @@ import (
 
 	"github.com/ethereum/go-ethereum/common"
 	"github.com/jackc/pgconn"
+	"github.com/jackc/pgx/v4"
 
 	"github.com/shutter-network/shutter/shlib/puredkg"
 	"github.com/shutter-network/shutter/shlib/shcrypto"
 
 	"github.com/shutter-network/rolling-shutter/rolling-shutter/keyper/database"
 	"github.com/shutter-network/rolling-shutter/rolling-shutter/keyper/shutterevents"
+	"github.com/shutter-network/rolling-shutter/rolling-shutter/shdb"
 	"github.com/shutter-network/rolling-shutter/rolling-shutter/shmsg"
 )
 
@@ -22,12 +24,34 @@ import (
 
 var vfSaved []int64
 
+// gob encoding of the DKG object is outside the encoder: the stub keeps a snapshot of the
+// object's exported scalar fields under a one-byte handle, the decode stub returns it
+var vfPureStore []puredkg.PureDKG
+
 //verif:stub github.com/shutter-network/rolling-shutter/rolling-shutter/shdb.EncodePureDKG
-func vfStubEncodePure(p *puredkg.PureDKG) ([]byte, error) { return []byte("pure"), nil }
+func vfStubEncodePure(p *puredkg.PureDKG) ([]byte, error) {
+	vfPureStore = append(vfPureStore, puredkg.PureDKG{Phase: p.Phase, Eon: p.Eon, NumKeypers: p.NumKeypers, Threshold: p.Threshold, Keyper: p.Keyper})
+	return []byte{byte(len(vfPureStore) - 1)}, nil
+}
+
+//verif:stub github.com/shutter-network/rolling-shutter/rolling-shutter/shdb.DecodePureDKG
+func vfStubDecodePure(b []byte) (*puredkg.PureDKG, error) {
+	c := vfPureStore[int(b[0])]
+	return &c, nil
+}
+
+var vfPureRows []database.Puredkg // the puredkg table (upsert by eon)
 
 //verif:stub (*github.com/shutter-network/rolling-shutter/rolling-shutter/keyper/database.Queries).InsertPureDKG sql=insertPureDKG
 func vfStubInsertPure(q *database.Queries, ctx context.Context, arg database.InsertPureDKGParams) error {
 	vfSaved = append(vfSaved, arg.Eon)
+	for i := range vfPureRows {
+		if vfPureRows[i].Eon == arg.Eon {
+			vfPureRows[i].Puredkg = arg.Puredkg
+			return nil
+		}
+	}
+	vfPureRows = append(vfPureRows, database.Puredkg{Eon: arg.Eon, Puredkg: arg.Puredkg})
 	return nil
 }
 
@@ -183,8 +207,15 @@ func vfStubRowsAffected8(t pgconn.CommandTag) int64 { return 0 }
 
 //verif:stub (*github.com/shutter-network/rolling-shutter/rolling-shutter/keyper/database.Queries).GetEon sql=getEon
 func vfStubGetEon8(q *database.Queries, ctx context.Context, eon int64) (database.Eon, error) {
+	for _, r := range vfEonRows {
+		if r.Eon == eon {
+			return r, nil
+		}
+	}
 	return database.Eon{Eon: eon}, nil
 }
+
+var vfEonRows []database.Eon
 
 //verif:stub (*github.com/shutter-network/rolling-shutter/rolling-shutter/keyper/database.Queries).InsertEonPublicKey sql=insertEonPublicKey
 func vfStubInsertEonPK(q *database.Queries, ctx context.Context, arg database.InsertEonPublicKeyParams) error {
@@ -252,4 +283,85 @@ func H_C08_phase_shift_written_back() {
 		vfAssert(n == 1, "exactly-one-polynomial-commitment-queued-per-dealing")
 		vfAssert(vfPh.polyEvals == len(ks), "one-evaluation-row-per-keyper")
 	}
+}
+
+
+// ---- a keyper that reloads its state from the tables continues like one that kept it in memory ----
+
+var vfReload struct {
+	cfg           database.TendermintBatchConfig
+	lastCommitted int64
+}
+
+//verif:stub (*github.com/shutter-network/rolling-shutter/rolling-shutter/keyper/database.Queries).InsertEon sql=insertEon
+func vfStubInsertEon8(q *database.Queries, ctx context.Context, arg database.InsertEonParams) error {
+	vfEonRows = append(vfEonRows, database.Eon{Eon: arg.Eon, Height: arg.Height, ActivationBlockNumber: arg.ActivationBlockNumber, KeyperConfigIndex: arg.KeyperConfigIndex})
+	return nil
+}
+
+//verif:stub (*github.com/shutter-network/rolling-shutter/rolling-shutter/keyper/database.Queries).GetBatchConfig sql=getBatchConfig
+func vfStubGetBatchConfig8(q *database.Queries, ctx context.Context, idx int32) (database.TendermintBatchConfig, error) {
+	if idx != vfReload.cfg.KeyperConfigIndex {
+		return database.TendermintBatchConfig{}, pgx.ErrNoRows
+	}
+	return vfReload.cfg, nil
+}
+
+//verif:stub (*github.com/shutter-network/rolling-shutter/rolling-shutter/keyper/database.Queries).GetLastCommittedHeight sql=getLastCommittedHeight
+func vfStubLastCommitted8(q *database.Queries, ctx context.Context) (int64, error) {
+	return vfReload.lastCommitted, nil
+}
+
+//verif:stub (*github.com/shutter-network/rolling-shutter/rolling-shutter/keyper/database.Queries).CountBatchConfigs sql=countBatchConfigs
+func vfStubCountConfigs8(q *database.Queries, ctx context.Context) (int64, error) { return 1, nil }
+
+//verif:stub (*github.com/shutter-network/rolling-shutter/rolling-shutter/keyper/database.Queries).SelectPureDKG sql=selectPureDKG
+func vfStubSelectPure8(q *database.Queries, ctx context.Context) ([]database.Puredkg, error) {
+	return vfPureRows, nil
+}
+
+//verif:stub github.com/shutter-network/shutter/shlib/puredkg.NewPureDKG
+func vfStubNewPure(eon, n, t, keyper uint64) puredkg.PureDKG {
+	return puredkg.PureDKG{Phase: puredkg.Off, Eon: eon, NumKeypers: n, Threshold: t, Keyper: keyper}
+}
+
+func H_C08_reload_equals_memory() {
+	ks := vfKeypers(vfParam("keypers", 2))
+	own := vfAny[common.Address]("own")
+	e := &shutterevents.EonStarted{Height: vfI64("event.height"), Eon: vfU64("event.eon"), ActivationBlockNumber: vfU64("event.activation"), KeyperConfigIndex: vfU64("event.config-index")}
+	vfAssume(e.Height >= 0 && e.Height < 1<<40 && e.Eon < 1<<62 && e.KeyperConfigIndex < 1<<31)
+	vfReload.cfg = database.TendermintBatchConfig{KeyperConfigIndex: int32(e.KeyperConfigIndex), Height: vfI64("config.height"), Keypers: shdb.EncodeAddresses(ks), Threshold: int32(vfLen("threshold-minus-1", len(ks)-1) + 1)}
+	// the event is handled while its own block is being applied
+	vfReload.lastCommitted = e.Height - 1
+	vfPh.scheduled, vfPh.commitMsgs, vfPh.polyEvals, vfPh.deleted, vfPh.results = nil, nil, 0, nil, nil
+	vfPh.starts, vfPh.computeOK = [4]int{}, true
+	vfSaved, vfPureStore, vfPureRows, vfEonRows = nil, nil, nil, nil
+
+	st := NewShuttermintState(vfConf{addr: own})
+	st.isKeyper = true
+	err := st.HandleEvent(context.Background(), nil, e)
+	if err != nil {
+		vfReach("handler-error")
+		return
+	}
+	vfAssert(st.Save(context.Background(), nil) == nil, "save-succeeds")
+
+	st2 := NewShuttermintState(vfConf{addr: own}) // the restarted process
+	vfAssert(st2.Load(context.Background(), nil) == nil, "load-succeeds")
+	a, inMem := st.dkg[e.Eon]
+	b, loaded := st2.dkg[e.Eon]
+	vfAssert(inMem == loaded && len(st.dkg) == len(st2.dkg), "same-active-eons-after-reload")
+	if !inMem || !loaded {
+		vfReach("not-a-member")
+		return
+	}
+	vfAssert(b.startHeight == a.startHeight, "reloaded-eon-start-height-equals-the-one-in-memory")
+	vfAssert(vfDeepEq(b.keypers, a.keypers), "reloaded-keyper-list-equals-the-one-in-memory")
+	vfAssert(!b.dirty && !a.dirty, "nothing-dirty")
+	vfAssert(b.pure.Phase == a.pure.Phase && b.pure.Eon == a.pure.Eon && b.pure.NumKeypers == a.pure.NumKeypers && b.pure.Threshold == a.pure.Threshold && b.pure.Keyper == a.pure.Keyper, "reloaded-object-equals-the-one-in-memory")
+	// hence both compute the same phase for every later height
+	h := vfI64("later-height")
+	vfAssume(h >= 0 && h < 1<<40)
+	vfAssert(st2.phaseLength.GetPhaseAtHeight(h, b.startHeight) == st.phaseLength.GetPhaseAtHeight(h, a.startHeight), "same-phase-at-every-later-height")
+	vfReach("reloaded")
 }
